@@ -27,17 +27,17 @@ def vfRet (P : B44.Params) (k salt : B44.Bytes) (seq : Int) (bv sig : B44.Bytes)
   | "ed25519.Verify(k, bufferToSign(salt, bv, seq), sig)" => some (P.verify k (B44.bufferToSign salt seq bv) sig)
   | _ => none
 
-def ckLetsExpected : List String := ["bv, err := bencode.Marshal(i.V)"]
+def ckLetsExpected : List String := ["$1, $2 := bencode.Marshal(i.V)"]
 
 /-- `Check`. The model's item carries `bv`, the successful result of `bencode.Marshal(i.V)` (`err != nil` is
 false). `IsMutable` and `Verify` are read from their own sources; `i.K[:]` has a model value only for a
 mutable item. -/
 def ckCond (P : B44.Params) (i : B44.Item) : String → Option Bool
-  | "err != nil" => some false
-  | "len(bv) > 1000" => some (decide (i.bv.length > 1000))
+  | "$2 != nil" => some false
+  | "len($1) > 1000" => some (decide (i.bv.length > 1000))
   | "!i.IsMutable()" => (DExp.evalWith noCond (imRet i) Gen.treeItemIsMutable).map (!·)
   | "len(i.Salt) > 64" => some (decide (i.salt.length > 64))
-  | "!Verify(i.K[:], i.Salt, i.Seq, bv, i.Sig[:])" =>
+  | "!Verify(i.K[:], i.Salt, i.Seq, $1, i.Sig[:])" =>
     (i.k.bind (fun k => DExp.evalWith noCond (vfRet P k i.salt i.seq i.bv i.sig) Gen.treeBep44Verify)).map (!·)
   | _ => none
 
@@ -67,14 +67,14 @@ theorem SourceTrees.bep44Check (P : B44.Params) (i : B44.Item) :
       · cases h3 : P.verify k (B44.bufferToSign i.salt i.seq i.bv) i.sig <;> simp [h1, h2, h3, ckRet]
 
 /-- Negative check: the value limit changed (1000 → 1001). Unknown atom: no value for any item. -/
-def treeBep44CheckMutLimit : DExp := DExp.ite "err != nil" (DExp.ret "err") (DExp.ite "len(bv) > 1001" (DExp.ret "ErrValueFieldTooBig") (DExp.ite "!i.IsMutable()" (DExp.ret "nil") (DExp.ite "len(i.Salt) > 64" (DExp.ret "ErrSaltFieldTooBig") (DExp.ite "!Verify(i.K[:], i.Salt, i.Seq, bv, i.Sig[:])" (DExp.ret "ErrInvalidSignature") (DExp.ret "nil")))))
+def treeBep44CheckMutLimit : DExp := DExp.ite "$2 != nil" (DExp.ret "$2") (DExp.ite "len($1) > 1001" (DExp.ret "ErrValueFieldTooBig") (DExp.ite "!i.IsMutable()" (DExp.ret "nil") (DExp.ite "len(i.Salt) > 64" (DExp.ret "ErrSaltFieldTooBig") (DExp.ite "!Verify(i.K[:], i.Salt, i.Seq, $1, i.Sig[:])" (DExp.ret "ErrInvalidSignature") (DExp.ret "nil")))))
 
 example (P : B44.Params) (i : B44.Item) : DExp.evalWith (ckCond P i) ckRet treeBep44CheckMutLimit = none := by
   simp [treeBep44CheckMutLimit, DExp.evalWith, ckCond]
 
 /-- Negative check with known atoms only: the salt test after the signature test. The tree evaluates, but an
 item with an over-long salt and a bad signature is answered 206 instead of the model's (and the source's) 207. -/
-def treeBep44CheckMutOrder : DExp := DExp.ite "err != nil" (DExp.ret "err") (DExp.ite "len(bv) > 1000" (DExp.ret "ErrValueFieldTooBig") (DExp.ite "!i.IsMutable()" (DExp.ret "nil") (DExp.ite "!Verify(i.K[:], i.Salt, i.Seq, bv, i.Sig[:])" (DExp.ret "ErrInvalidSignature") (DExp.ite "len(i.Salt) > 64" (DExp.ret "ErrSaltFieldTooBig") (DExp.ret "nil")))))
+def treeBep44CheckMutOrder : DExp := DExp.ite "$2 != nil" (DExp.ret "$2") (DExp.ite "len($1) > 1000" (DExp.ret "ErrValueFieldTooBig") (DExp.ite "!i.IsMutable()" (DExp.ret "nil") (DExp.ite "!Verify(i.K[:], i.Salt, i.Seq, $1, i.Sig[:])" (DExp.ret "ErrInvalidSignature") (DExp.ite "len(i.Salt) > 64" (DExp.ret "ErrSaltFieldTooBig") (DExp.ret "nil")))))
 
 theorem SourceTrees.bep44Check_mutOrder_wrong (P : B44.Params) (i : B44.Item) (k : B44.Key) (hk : i.k = some k)
     (hv : ¬ i.bv.length > 1000) (hs : i.salt.length > 64)
